@@ -191,7 +191,7 @@ def check(outdir, first, last):
     copy = os.path.join(outdir, 'checkrepo')
     copy_repo(copy)
     vdir = os.path.join(outdir, 'verifout')
-    env = dict(ENV, VERIF_REPO=copy, VERIF_DIR=vdir, VERIF_RACE='0')
+    env = dict(ENV, VERIF_REPO=copy, VERIF_DIR=vdir, VERIF_RACE=os.environ.get('VERIF_RACE', '0'))
     for k, c in enumerate(surv[first:last]):
         if c['id'] in res:
             continue
